@@ -5,6 +5,7 @@
 import SnowModel.Ops.OpCond
 import SnowModel.Ops.Simpson
 import SnowModel.Ops.FlakeStats
+import SnowModel.Ops.Flake
 
 open Lean Snow
 
@@ -12,6 +13,7 @@ def allOps : List (String × Op) :=
   Snow.Ops.opCondOps
   ++ Snow.Ops.simpsonOps
   ++ Snow.Ops.flakeStatsOps
+  ++ Snow.Ops.flakeOps
 
 def handle (line : String) : String :=
   match Json.parse line with
